@@ -186,7 +186,7 @@ Definition shortest (m e : Z) : Z * Z :=
   match shortest_loop 17 1 L qx (2 * X) den Lmin Hmax with
   | Some (d, k) =>
       let c := d * 10 ^ k in
-      if (0 <=? k) && (Lmin <=? c) && (c <=? Hmax) then strip10 1100 d (k + j)
+      if (0 <? d) && (0 <=? k) && (Lmin <=? c) && (c <=? Hmax) then strip10 1100 d (k + j)
       else strip10 1100 (fst (exact_decimal m e)) (snd (exact_decimal m e))
   | None => strip10 1100 (fst (exact_decimal m e)) (snd (exact_decimal m e))
   end.
